@@ -293,6 +293,13 @@ func (c *Ctx) ifaceContract(fn *types.Func) *ifaceC {
 			}
 		}
 		q := fn.Pkg().Name() + "." + key
+		// the package under verification states its own assumptions about externals; other loaded packages' versions
+		// (which may differ) are only a fallback
+		if c.pkg != nil && c.pkg.contracts != nil {
+			if fc := c.pkg.contracts.Funcs[q]; fc != nil {
+				return &ifaceC{c.pkg, fc}
+			}
+		}
 		for _, pk := range c.prog.pkgs {
 			if pk.contracts != nil {
 				if fc := pk.contracts.Funcs[q]; fc != nil {
